@@ -786,8 +786,11 @@ func (a *Agent) PivotAddJob(job Job) {
 	// add this job to pivot queue.
 	// tho it's not going to be used besides for the task size calculator
 	// which is going to be displayed to the operator.
+	// (the link is read in the same step: LinkRemove marks the queue and clears it in one, too,
+	// so a job is either on this side of the mark and on its way up, or behind it and waiting)
 	a.JobMtx.Lock()
 	a.JobQueue = append(a.JobQueue, job)
+	var Hop = a.Pivots.Parent
 	a.JobMtx.Unlock()
 
 	PivotJob = Job{
@@ -799,12 +802,11 @@ func (a *Agent) PivotAddJob(job Job) {
 		},
 	}
 
-	// walk up from the parent we see now: a disconnect reported by the parent (another
+	// walk up from the parent we saw: a disconnect reported by the parent (another
 	// goroutine) may clear the link at any moment
-	var Hop = a.Pivots.Parent
 	if Hop == nil {
 		// the link went away since AddJobToQueue looked: there is no hop to hand the job to
-		// any more (it stays in the agent's own queue, see above)
+		// any more (it stays in the agent's own queue and is sent when the agent is linked again)
 		return
 	}
 
@@ -843,6 +845,26 @@ func (a *Agent) PivotAddJob(job Job) {
 	Hop.JobMtx.Lock()
 	Hop.JobQueue = append(Hop.JobQueue, PivotJob)
 	Hop.JobMtx.Unlock()
+}
+
+// PivotFlushUnlinked
+// the agent has a link again: hand the jobs that were queued while it had none to the new parent.
+func (a *Agent) PivotFlushUnlinked() {
+	var Waiting []Job
+
+	a.JobMtx.Lock()
+	if a.Pivots.Unlinked {
+		if a.Pivots.QueuedAtUnlink < len(a.JobQueue) {
+			Waiting = append(Waiting, a.JobQueue[a.Pivots.QueuedAtUnlink:]...)
+			a.JobQueue = a.JobQueue[:a.Pivots.QueuedAtUnlink]
+		}
+		a.Pivots.Unlinked = false
+	}
+	a.JobMtx.Unlock()
+
+	for _, job := range Waiting {
+		a.PivotAddJob(job)
+	}
 }
 
 func (a *Agent) DownloadAdd(FileID int, FilePath string, FileSize int64) error {
